@@ -73,6 +73,25 @@ theorem blend_one (f1 f2 : α) : blend 1 f1 f2 = f2 := by
 theorem blend_zero (f1 f2 : α) : blend 0 f1 f2 = f1 := by
   simp [blend, clamp01]
 
+/-- a 2×N array is read as (abscissa row, ordinate row) for every N — in particular a 2×2 array is **not** transposed -/
+theorem profileRows_2xN {β : Type} (x f : List β) : profileRows [x, f] = some (x, f) := rfl
+
+theorem profileRows_2x2 {β : Type} (a b c d : β) : profileRows [[a, b], [c, d]] = some ([a, b], [c, d]) := rfl
+
+/-- the code as it stands does not validate the shape: any array with at least two rows is accepted and read through its
+first two rows (3×N: third row ignored; N×2 with N ≥ 3: rows 0 and 1 become a two-knot profile) -/
+theorem profileRows_extra_rows {β : Type} (x f : List β) (rest : List (List β)) :
+    profileRows (x :: f :: rest) = some (x, f) := rfl
+
+/-- fewer than two rows (1×N, empty) and arrays that are not 2-d are rejected -/
+theorem profileRows_rejects {β : Type} (rows : List (List β)) (h : rows.length < 2) : profileRows rows = none := by
+  match rows, h with
+  | [], _ => rfl
+  | [_], _ => rfl
+
+theorem profileOfArray_ndim {β : Type} (ndim : Nat) (rows : List (List β)) :
+    profileOfArray ndim rows = if ndim = 2 then profileRows rows else none := rfl
+
 /-- inside the LCFS (polygon ∧ ψN ≤ 1) the mapped function is the profile at the normalised flux of the point -/
 theorem map2d_inside (outside : α) (profile : α → α) (poly interpN : α → α → α) (r z : α)
     (h1 : 0 < poly r z) (h2 : psiN interpN r z ≤ 1) :
